@@ -239,6 +239,15 @@ def _none(it, obj, *a, **k):
     return None
 
 
+def _event_op(opname):
+    def f(it, ev, *a, **k):
+        ops = ev.fields.get('ops')
+        if ops is not None:
+            ops.items.append(opname)       # ghost trace of the operations on this event
+        return None
+    return f
+
+
 def _fresh_bool(it, obj, *a, **k):
     return mk_bool(it.ctx.fresh_bool('ext_bool'))
 
@@ -282,9 +291,9 @@ METHODS = {
     ('file', 'close'): _none,
     ('queue', 'put'): queue_put,
     ('queue', 'get'): queue_get,
-    ('event', 'wait'): _none,
-    ('event', 'set'): _none,
-    ('event', 'clear'): _none,
+    ('event', 'wait'): _event_op('wait'),
+    ('event', 'set'): _event_op('set'),
+    ('event', 'clear'): _event_op('clear'),
     ('event', 'is_set'): _fresh_bool,
     ('ssocket', 'bind'): _none,
     ('ssocket', 'listen'): _none,
